@@ -254,7 +254,12 @@ pub fn process_case_line(line: &str) -> Value {
                         Some(Front::Ok(_)) => StageHint::Back,
                         _ => StageHint::Unknown,
                     };
-                    with_outcome("error", classify_error_staged(&msgs[0], hint))
+                    let mut f = with_outcome("error", classify_error_staged(&msgs[0], hint));
+                    // the text itself, for the comparison that is used when a message is not one the classifier knows
+                    if let Value::Object(o) = &mut f {
+                        o.insert("message".into(), Value::String(msgs[0].clone()));
+                    }
+                    f
                 }
                 None => match guarded(|| extract_facts(ts)) {
                     Ok(Ok(f)) => with_outcome("ok", f),
